@@ -151,9 +151,43 @@ def scorer_multiword():
     return kw["threshold"], kw["min_len"], defaults["max_len"], skips[0]
 
 
+def scorer_rebuild_check():
+    """does PCFGPasswordScorer.parse zero the probability when re-applying the mask to the
+    lower-cased word does not give back the alpha section (`if rebuilt != text: cur_prob = 0`)?"""
+    fn = X.find_func(X.parse("lib_scorer/pcfg_password_scorer.py"), "parse", "PCFGPasswordScorer")
+    names = {n.id for n in ast.walk(fn) if isinstance(n, ast.Name)}
+    hits = []
+    for n in ast.walk(fn):
+        if isinstance(n, ast.If) and isinstance(n.test, ast.Compare) and len(n.test.ops) == 1 \
+                and isinstance(n.test.ops[0], ast.NotEq) and ast.unparse(n.test.left) == "rebuilt" \
+                and ast.unparse(n.test.comparators[0]) == "text":
+            if [ast.unparse(b) for b in n.body] != ["cur_prob = 0"] or n.orelse:
+                raise X.ExtractError("scorer: unexpected body of the rebuild test")
+            hits.append(n)
+    if not hits:
+        if "rebuilt" in names:
+            raise X.ExtractError("scorer: `rebuilt` is used but the test `rebuilt != text` was not found")
+        return False
+    if len(hits) != 1:
+        raise X.ExtractError("scorer: more than one rebuild test")
+    # the loop it sits in and the definition of rebuilt
+    loops = [n for n in ast.walk(fn) if isinstance(n, ast.For) and hits[0] in ast.walk(n)]
+    if len(loops) != 1 or ast.unparse(loops[0].target) != "(text, word, mask)" \
+            or ast.unparse(loops[0].iter) != "zip(alpha_sections, found_alpha_strings, found_mask_list)":
+        raise X.ExtractError("scorer: unexpected loop around the rebuild test")
+    defs = [ast.unparse(n.value) for n in ast.walk(fn) if isinstance(n, ast.Assign) and ast.unparse(n.targets[0]) == "rebuilt"]
+    if defs != ["''.join((c.upper() if m == 'U' else c for c, m in zip(word, mask)))"]:
+        raise X.ExtractError("scorer: unexpected definition of rebuilt: %r" % defs)
+    secs = [ast.unparse(n.value) for n in ast.walk(fn) if isinstance(n, ast.Assign) and ast.unparse(n.targets[0]) == "alpha_sections"]
+    if secs != ["[x[0] for x in section_list if x[1] and x[1][0] == 'A']"]:
+        raise X.ExtractError("scorer: unexpected definition of alpha_sections: %r" % secs)
+    return True
+
+
 def extract():
     C = {}
     C["seg_lower_aligned"] = lower_aligned()
+    C["scorer_rebuild_check"] = scorer_rebuild_check()
     C["scorer_mw_threshold"], C["scorer_mw_min_len"], C["scorer_mw_max_len"], C["scorer_mw_skip"] = scorer_multiword()
     rows, nkb, mk, fp = keyboards()
     C["kb_rows_flat"] = rows              # 8 rows per layout, layouts in search order
